@@ -51,6 +51,9 @@ def fixed_calls():
     for fmt in ("vtl", "sdmx_reporting", "sdmx_gregorian", "natural"):
         c.append(("tp-" + fmt, _mk("run", "DS_r <- DS_1[filter Id_1 <> 2]; DS_s <- DS_2 * 2;", TP_STRUCT, TP_DATA,
                                    time_period_output_format=fmt)))
+    for fmt in ("vtl", "sdmx_reporting", "natural"):
+        c.append(("tpcast-" + fmt, _mk("run", 'S_1 <- cast(cast("2020Q1", time_period), string); DS_r <- DS_1[calc Me_s := cast(Id_2, string)];',
+                                       TP_STRUCT, TP_DATA, time_period_output_format=fmt)))
     c.append(("virt-if", _mk("run", "A <- if DS_1#Me_1 > 5 then DS_1 else DS_2; B <- nvl(DS_1[keep Me_1], 0) + DS_2[keep Me_1];", TP_STRUCT, TP_DATA)))
     c.append(("virt-join", _mk("run", "C <- inner_join(DS_1 as d1, DS_2 as d2 rename d1#Me_1 to M1, d2#Me_1 to M2, d1#Me_2 to N1, d2#Me_2 to N2);", TP_STRUCT, TP_DATA)))
     c.append(("virt-check", _mk("run", "D <- check(DS_1#Me_1 > DS_2#Me_1 errorcode \"e\" errorlevel 1 imbalance DS_1#Me_1 - DS_2#Me_1);", TP_STRUCT, TP_DATA)))
@@ -78,7 +81,7 @@ def make_scenario(rng, corpus_ids=None, gen_pool=None):
             r = rng.random()
             if mode < 0.35:
                 # contending viral / time-period calls
-                pool = [x for x in fc if x[0].startswith(("viral", "tp-"))]
+                pool = [x for x in fc if x[0].startswith(("viral", "tp-", "tpcast-"))]
                 name, op = rng.choice(pool)
             elif mode < 0.5:
                 # calls whose outcome embeds virtual names / the statement's output dataset
